@@ -5,6 +5,7 @@
 #include <yaclib/util/intrusive_ptr.hpp>
 
 #include <cstddef>
+#include <type_traits>
 
 namespace yaclib {
 namespace detail {
@@ -23,7 +24,13 @@ class Helper final : public Counter<ObjectT, DefaultDeleter> {
   }
 
   std::size_t GetRef() noexcept final {
-    return this->Get();
+    // The result decides whether the caller is the last owner and may move the shared value out: it has to
+    // synchronize with the release decrements of the owners that read the value before.
+    if constexpr (std::is_same_v<Counter<ObjectT, DefaultDeleter>, OneCounter<ObjectT, DefaultDeleter>>) {
+      return this->Get();
+    } else {
+      return this->Get(std::memory_order_acquire);
+    }
   }
 };
 
